@@ -174,6 +174,41 @@ C_MUTANTS = [
      '    return convert_to_object(data, gs->gs_type);', '    return convert_to_object(gs->gs_data, gs->gs_type);'),
     ('C12', ['field loop, forced offset'], 'src/c/_cffi_backend.c',
      '                byteoffset = foffset;\n            }', '            }'),
+    ('C29', ['cffi_closure_alloc'], 'src/c/malloc_closure.h',
+     '    item = free_list;\n    free_list = item->next;\n    MALLOC_CLOSURE_UNLOCK();\n    return &item->closure;',
+     '    item = free_list;\n    MALLOC_CLOSURE_UNLOCK();\n    return &item->closure;'),
+    ('C29', ['cffi_closure_free'], 'src/c/malloc_closure.h',
+     '    item->next = free_list;\n    free_list = item;\n    MALLOC_CLOSURE_UNLOCK();',
+     '    item->next = NULL;\n    free_list = item;\n    MALLOC_CLOSURE_UNLOCK();'),
+    ('C29', ['more_core'], 'src/c/malloc_closure.h',
+     '        item->next = free_list;\n        free_list = item;\n        ++item;',
+     '        item->next = free_list;\n        free_list = item;'),
+    ('C29', ['b_callback'], 'src/c/_cffi_backend.c',
+     '    cd->head.c_data = CFFI_CLOSURE_TO_FNPTR(char *, closure_exec);', '    cd->head.c_data = (char *)cd;'),
+    ('C29', ['invoke_callback'], 'src/c/_cffi_backend.c',
+     '        general_invoke_callback(1, result, (char *)args, userdata);',
+     '        general_invoke_callback(1, result, (char *)args, cif);'),
+    ('C27', ['new_array_type'], 'src/c/_cffi_backend.c',
+     '    unique_key[1] = (void *)length;', '    unique_key[1] = (void *)0;'),
+    ('C27', ['get_or_insert_unique_type'], 'src/c/_cffi_backend.c',
+     '        Py_DECREF(wr);\n        if (obj != NULL) {\n            return obj;\n        }',
+     '        Py_DECREF(wr);'),
+    ('C27', ['remove_dead_unique_reference'], 'src/c/_cffi_backend.c',
+     '        if (err == 0) {\n            /* The weakref is dead, delete it. */',
+     '        if (err >= 0) {\n            /* The weakref is dead, delete it. */'),
+    ('C05', ['write_raw_float_data'], 'src/c/_cffi_backend.c',
+     'write_raw_float_data(char *target, double source, int size)\n{\n    _write_raw_data(float);',
+     'write_raw_float_data(char *target, double source, int size)\n{\n    if (size == 4) { float f = (float)(source * 0.99999999999); memcpy(target, &f, 4); return; }\n    _write_raw_data(float);'),
+    ('C05', ['convert_from_object float'], 'src/c/_cffi_backend.c',
+     '            lvalue = read_raw_longdouble_data(initdata);\n            write_raw_longdouble_data(data, lvalue);\n            return 0;',
+     '            lvalue = (long double)(double)read_raw_longdouble_data(initdata);\n            write_raw_longdouble_data(data, lvalue);\n            return 0;'),
+    ('C20', ['allocate_owning_object'], 'src/c/_cffi_backend.c',
+     '    if (dont_clear)\n        cd = malloc(size);', '    if (dont_clear || size > 4096)\n        cd = malloc(size);'),
+    ('C20', ['add_varsize_length'], 'src/c/_cffi_backend.c',
+     '    if (size > *optvarsize)\n        *optvarsize = size;', '    if (size > *optvarsize + 8)\n        *optvarsize = size;'),
+    ('C20', ['list loop'], 'src/c/_cffi_backend.c',
+     '            while (cf != NULL && (cf->cf_flags & BF_IGNORE_IN_CTOR))\n                cf = cf->cf_next;',
+     '            while (cf != NULL && i > 0 && (cf->cf_flags & BF_IGNORE_IN_CTOR))\n                cf = cf->cf_next;'),
     ('C03', ['export table'], 'src/c/_cffi_backend.c',
      '    _cffi_to_c_i32,\n    _cffi_to_c_u32,', '    _cffi_to_c_u32,\n    _cffi_to_c_i32,'),
 ]
